@@ -55,6 +55,36 @@ long bad_mtime(char *path) {
   return st.st_mtime + st.st_ino;
 }
 
+// R12.1: a file-identity key -- the inode numbers only ever meet other keys (must NOT be flagged) ...
+void *hashmap_get(HashMap *map, char *key);
+void hashmap_put(HashMap *map, char *key, void *val);
+char *good_file_key(char *path) {
+  struct stat st;
+  if (stat(path, &st))
+    return path;
+  return format("%ld:%ld", (long)st.st_dev, (long)st.st_ino);
+}
+int good_once(HashMap *m, char *path) {
+  char *key = good_file_key(path);
+  if (hashmap_get(m, key))
+    return 1;
+  hashmap_put(m, good_file_key(path), (void *)1);
+  return 0;
+}
+
+// ... and the same function shape whose result is also printed: the number reaches the output
+char *bad_file_key(char *path) {
+  struct stat st;
+  if (stat(path, &st))
+    return path;
+  return format("%ld:%ld", (long)st.st_dev, (long)st.st_ino);
+}
+void bad_file_key_user(HashMap *m, char *path) {
+  char *key = bad_file_key(path);
+  hashmap_put(m, key, (void *)1);
+  println("# %s", key);
+}
+
 // R12.1: time flows into a macro other than __DATE__ / __TIME__  (function is named like the allowed one on purpose)
 void init_macros(void) {
   time_t now = time(NULL);
